@@ -53,3 +53,32 @@ def escaped_too_early(message):
     safe = html.escape(message)
     safe += message
     return f"<p>{safe}</p>"  # EXPECT: R12.1
+
+
+def _wrap_page(title, body):
+    # a private helper: its parameters are decided at its call sites
+    return f"<html><head><title>{title}</title></head><body>{body}</body></html>"  # CLEAN: R12.1
+
+
+def page_through_private_helper_escaped(status_code: int, message: str):
+    return _wrap_page(str(status_code), html.escape(message))
+
+
+def page_through_private_helper_reflected(status_code: int, message: str):
+    return _wrap_page(str(status_code), message)  # EXPECT: R12.1
+
+
+_NOTE_TEMPLATE = """
+    <p>{note}</p>
+"""
+
+
+def reflected_module_template(note):
+    import textwrap
+
+    return textwrap.dedent(_NOTE_TEMPLATE).format(note=note)  # EXPECT: R12.1
+
+
+def escaped_local_template(note):
+    template = "<p>%s</p>"
+    return template % html.escape(note)  # CLEAN: R12.1
